@@ -81,7 +81,8 @@ ReqViol(st, e, staged1) ==
          (IF ~Known(st.expect, n) \/ ~Pol(st.expect, n).sel
           THEN {V("C16", "UpdateOfUnmanagedStatement", IF Known(st.expect, n) THEN Pol(st.expect, n).why ELSE "unknown name", e)}
           ELSE
-            (IF Pol(st.expect, n).eval # "ok"
+            (IF Pol(st.expect, n).eval = "skip" THEN {}
+             ELSE IF Pol(st.expect, n).eval # "ok"
              THEN {V("C03", "UpdateOfPolicyWhoseDataCouldNotBeObtained", "eval=" \o Pol(st.expect, n).eval, e)}
              ELSE
                LET P == Get(Load(st.staged, e.update), n)      \* the update on its own, acknowledged or not
@@ -148,14 +149,14 @@ EndViol(st, e) ==
   \cup UNION {
      LET x == Pol(exp, n) IN
      IF x.sel /\ x.eval = "ok"
-     THEN (IF n \notin names THEN {V("C01", "ManagedPolicyMissingAfterSuccessfulRun", "", e)}
+     THEN (IF n \notin names THEN {V(IF exp.prop \in {"C15", "C11"} THEN exp.prop ELSE "C01", "ManagedPolicyMissingAfterSuccessfulRun", "", e)}
            ELSE LET P == Get(st.eph, n) IN
              (IF AcceptAtoms(P, "inet", d) # ToSet(x.v4) \/ AcceptAtoms(P, "inet6", d) # ToSet(x.v6)
                  \/ AcceptsOutsideUniverse(P, d) \/ FailOpen(P)
               THEN {V(IF exp.prop \in {"C15", "C11"} THEN exp.prop ELSE "C01", "InstalledFilterDiffersFromEvaluatedSet",
                       IF AcceptAtoms(P, "inet", d) # ToSet(x.v4) THEN "inet" ELSE "inet6/other", e)} ELSE {})
              \cup (IF ~Readable(P) THEN {V("C01", "InstalledStateNotReadableByTheAgent", "", e)} ELSE {}))
-     ELSE IF x.marked /\ x.eval # "ok"
+     ELSE IF x.marked /\ x.eval \notin {"ok", "skip"}
      THEN (* C03: stays exactly as it was *)
           (IF (n \in names) # (n \in Names(st.start)) \/ (n \in names /\ Get(st.eph, n) # Get(st.start, n))
            THEN {V("C03", "PolicyChangedAlthoughItsDataCouldNotBeObtained", "eval=" \o x.eval, e)} ELSE {})
